@@ -1056,9 +1056,19 @@ func concurrentStream(n int, goroutines int) {
 		for i := range calls {
 			calls[i] = p.genCall()
 		}
+		// the solo results come from a second decoding of the same patch texts, so that the shared
+		// Patch values meet their first Apply inside the concurrent phase
+		clone := make([]jsonpatch.Patch, len(p.ptexts))
+		for i, t := range p.ptexts {
+			clone[i], _ = jsonpatch.DecodePatch(t)
+		}
 		solo := make([]string, k)
 		for i, c := range calls {
-			solo[i] = c.run()
+			sc := c
+			if sc.kind == "apply" {
+				sc.patch = clone[sc.pidx]
+			}
+			solo[i] = sc.run()
 		}
 		snap := snapshot(p)
 		var wg sync.WaitGroup
